@@ -16,13 +16,13 @@ for d in sorted(Path('seeded').iterdir()):
             r = k.split(':')[0]
             rules.append(r)
     first = ''
-    if m.get('round') == 2:
+    if m.get('round', 1) >= 2:
         fp = m.get('first_pass', {})
         first = 'yes' if fp.get('detected') else 'no'
     what = m['summary'].split('. ')[0][:150].replace('|', '/')
     rows.append((d.name, m['property'], ', '.join(m['files']), what,
                  first, ', '.join(sorted(set(rules))) or '— (missed)'))
-out = ['| seed | written for | file | change (first sentence of the author\'s summary) | caught at first pass (round 2) | reported by |',
+out = ['| seed | written for | file | change (first sentence of the author\'s summary) | caught at first pass (rounds 2, 3) | reported by |',
        '|---|---|---|---|---|---|']
 for r in rows:
     out.append('| ' + ' | '.join(r) + ' |')
@@ -34,5 +34,5 @@ open('DESIGN.md', 'w').write(s)
 n1 = [r for r in rows if r[4] == '']
 n2 = [r for r in rows if r[4] != '']
 print('round1', len(n1), 'caught', sum(1 for r in n1 if 'missed' not in r[5]))
-print('round2', len(n2), 'first-pass', sum(1 for r in n2 if r[4] == 'yes'),
+print('rounds2+3', len(n2), 'first-pass', sum(1 for r in n2 if r[4] == 'yes'),
       'now', sum(1 for r in n2 if 'missed' not in r[5]))
